@@ -374,6 +374,7 @@ func (a *genericAuthenticator) calculateCacheKey(reference string) string {
 	digest := sha256.New()
 	digest.Write(a.e.Hash())
 	digest.Write(stringx.ToBytes(reference))
+	digest.Write(ttlHash(&a.ttl))
 
 	return hex.EncodeToString(digest.Sum(nil))
 }
